@@ -1143,8 +1143,11 @@ func runC11R6(c *Ctx, r *Rep) {
 		r.analysed(a.fn)
 		cb, ok := confirmedBounds[key]
 		switch {
+		case !ok && len(knownIndexSites) > 0 && !isKnownSite(a.fn, strings.SplitN(key, "|", 2)[1]):
+			// an access that did not exist when the reference was written: new code, not a guard that was removed
+			r.okTrivial("bce|"+key, a.pos, "unproven by the compiler (%d×) in code written since the reference: not decided by this rule, which answers whether an existing access lost its guard", a.n)
 		case !ok:
-			r.bad("bce|"+key, a.pos, "the Go compiler cannot prove this %s in bounds (%d occurrence(s)) and the site is not in the confirmed table: for some source text it panics with an index/slice out of range, which the stage barrier reports as SystemError", map[string]string{"IsInBounds": "index", "IsSliceInBounds": "slice"}[a.kind], a.n)
+			r.bad("bce|"+key, a.pos, "the Go compiler cannot prove this %s in bounds (%d occurrence(s)); the access exists in the reference tree, where it was proven (it is not among the reviewed unproven sites): the test that kept it in bounds was removed or weakened, so for some source text it panics with an index/slice out of range, which the stage barrier reports as SystemError", map[string]string{"IsInBounds": "index", "IsSliceInBounds": "slice"}[a.kind], a.n)
 		case a.n > cb.n:
 			r.bad("bce|"+key, a.pos, "%d unproven occurrences of this expression in %s, the confirmed table covers %d (%s): a new unguarded use was added", a.n, a.fn, cb.n, cb.why)
 		default:
